@@ -99,13 +99,17 @@ CHECKS = {
         technique="Lean 4 refinement proof (index = filter of list) by induction over heap operations + op-sequence correspondence",
         design="§4.C18"),
     "C04": dict(
-        text="Lean: record equality after the symmetry fix is reflexive and symmetric (recEq_refl, c04_recEq_symm, c04_anon_vs_identified); "
-             "the bundle comparison loop (set construction, length test, greedy removal) and the document comparison are transcribed in "
-             "the model and compared with the implementation on every generated pair in both argument orders. An independent content "
-             "oracle decides the expected answer for 15 edit kinds, including in-place edits after a record has been hashed.",
-        note=A_COMMON + " Transitivity and 'greedy loop = set equality' are not yet proved in Lean (open obligations, covered by the "
-             "correspondence and the content oracle only).",
-        technique="Lean 4 proofs about the transcribed __eq__ + differential correspondence on document pairs + content oracle",
+        text="Lean: ProvRecord.__eq__ after the symmetry fix is an equivalence: recEq_refl, c04_recEq_symm, c04_recEq_trans (value equality incl. "
+             "the cross-kind numeric case 1 == True == 1.0 as exact fractions, keyEq_trans), c04_anon_vs_identified. ProvBundle.__eq__ exactly as "
+             "coded (set(records) keeping the first representative, the length test, the greedy removal loop): c04_recordsEq_iff - for ALL record "
+             "lists it answers True iff every record of each list has an equal record in the other (content equivalence up to order and "
+             "repetition); hence c04_recordsEq_refl / _symm / _trans and c04_recordsEq_of_same_members. The document comparison (bundle count, "
+             "bundle-wise equality) is transcribed in the model and compared with the implementation on every generated pair in both argument "
+             "orders; an independent content oracle decides the expected answer for 15 edit kinds, including in-place edits after a record has been hashed.",
+        note=A_COMMON + " Floats are assumed to carry the non-zero denominator float.as_integer_ratio() always gives (hypothesis RecOk). "
+             "The document level (ProvDocument.__eq__ over bundles) is covered by correspondence and oracle, not by a Lean theorem; "
+             "__hash__ consistency is checked by the oracle only.",
+        technique="Lean 4 proofs about the transcribed __eq__ (equivalence; greedy loop = content equality) + differential correspondence + content oracle",
         design="§4.C04"),
     "C07": dict(
         text="Lean: the PROV-O writer (encode_container: plain triple vs qualified node, blank nodes, the string-matched predicate "
